@@ -401,7 +401,7 @@ static const char *hnames[] = { "reply-now", "reply-later", "reply-at-teardown",
 enum { SF_NONE, SF_PAUSE, SF_EOF, SF_CLOSE, NSFAULTS };
 static const char *sfnames[] = { "-", "pause", "eof", "close" };
 
-struct sconn { int fd; struct hc_buf out; int sent_request, closed, eof; };
+struct sconn { int fd; struct hc_buf out; int sent_request, hdr_sent, closed, eof; };
 static struct sconn SC[MAXCONN];
 static struct evhttp *s_http;
 static int s_hplan, s_handler_calls, s_max;
@@ -471,7 +471,23 @@ static int count_responses(const struct hc_buf *b, int eof, int *garbage)
 
 static void run_server(void)
 {
-	static const char reqbytes[] = "GET /x HTTP/1.1\r\nHost: h\r\n\r\n";
+	/* request shape (-P reqshape=N, one level per shape): 0 a bodiless GET; with a server body limit of 8 bytes:
+	 * 1 a POST with a 3-byte body, 2 a POST announcing 5000 bytes with "Expect: 100-continue" (headers only: the
+	 * client waits for the verdict), 3 the same announcement without Expect followed by 10 body bytes.  Shapes 2
+	 * and 3 are refused (413) before any handler runs; every shape must still get at most one response. */
+	static const char *const shapes[] = {
+		"GET /x HTTP/1.1\r\nHost: h\r\n\r\n",
+		"POST /x HTTP/1.1\r\nHost: h\r\nContent-Length: 3\r\n\r\nabc",
+		"POST /x HTTP/1.1\r\nHost: h\r\nContent-Length: 5000\r\nExpect: 100-continue\r\n\r\n",
+		"POST /x HTTP/1.1\r\nHost: h\r\nContent-Length: 5000\r\n\r\n0123456789",
+	};
+	int shape = mc_param("reqshape", 0);
+	if (shape < 0 || shape > 3) shape = 0;
+	const char *reqbytes = shapes[shape];
+	const size_t reqlen = strlen(reqbytes);
+	/* once the header block is complete the server may answer (a refusal needs no body); "complete request" for
+	 * the handler-call oracle still means every byte */
+	const size_t hdrlen = (size_t)(strstr(reqbytes, "\r\n\r\n") - reqbytes) + 4;
 	int mmask = mc_param("maxcmask", 7), ml[3], nm = 0;
 	for (int i = 0; i < 3; i++) if (mmask >> i & 1) ml[nm++] = i;
 	int maxc = ml[mc_choose(nm, 0, "max-connections")];
@@ -481,12 +497,13 @@ static void run_server(void)
 	struct sockaddr_un sa; memset(&sa, 0, sizeof sa); sa.sun_family = AF_UNIX;
 	if (!s_big) { s_biglen = (size_t)mc_param("big", 24000); s_big = malloc(s_biglen); memset(s_big, 0x78, s_biglen); }
 	s_hplan = hplan; s_handler_calls = 0; s_npending = 0; s_max = maxc;
-	mc_observe("server max=%d conns=%d %s second=%d: ", maxc, nconn, hnames[hplan], second);
+	mc_observe("server shape=%d max=%d conns=%d %s second=%d: ", shape, maxc, nconn, hnames[hplan], second);
 	MC_COUNT("server_scenarios");
 	hc_exec_begin();
 	s_http = evhttp_new(hc_base);
 	evhttp_set_gencb(s_http, s_handler, NULL);
 	if (maxc) evhttp_set_max_connections(s_http, maxc);
+	if (shape) evhttp_set_max_body_size(s_http, 8);
 	int requests_sent = 0, over_limit = 0;
 	for (int c = 0; c < nconn; c++) {
 		int sv[2];
@@ -502,7 +519,7 @@ static void run_server(void)
 		int is_over = maxc && before >= maxc;
 		if (is_over) over_limit++;
 		/* the client writes its request, possibly stopping / closing at any byte */
-		size_t n = sizeof reqbytes - 1, from = 0; int stop = 0;
+		size_t n = reqlen, from = 0; int stop = 0;
 		for (size_t k = 0; k <= n && !stop; k++) {
 			int f = mc_choose(NSFAULTS, 1, "client-fault");
 			if (f == SF_NONE) continue;
@@ -511,13 +528,13 @@ static void run_server(void)
 			if (k > from) { hc_peer_write(s->fd, reqbytes + from, k - from); from = k; }
 			switch (f) {
 			case SF_PAUSE: hc_run(); break;
-			case SF_EOF: shutdown(s->fd, SHUT_WR); s->eof = 1; stop = 1; if (k == n) { s->sent_request = 1; requests_sent++; } break;
+			case SF_EOF: if (k >= hdrlen) s->hdr_sent = 1; shutdown(s->fd, SHUT_WR); s->eof = 1; stop = 1; if (k == n) { s->sent_request = 1; requests_sent++; } break;
 			case SF_CLOSE: close(s->fd); s->fd = -1; s->closed = 1; stop = 1; if (k == n) requests_sent++; break;
 			}
 		}
 		if (!stop) {
 			if (n > from) hc_peer_write(s->fd, reqbytes + from, n - from);
-			s->sent_request = 1;
+			s->sent_request = 1; s->hdr_sent = 1;
 			requests_sent++;
 		}
 		hc_run();
@@ -540,7 +557,7 @@ static void run_server(void)
 	/* second request on the first connection (keep-alive), if it is still there */
 	if (second && SC[0].fd >= 0 && !SC[0].eof && SC[0].sent_request) {
 		hc_peer_drain(SC[0].fd, &SC[0].out);
-		if (hc_peer_write(SC[0].fd, reqbytes, sizeof reqbytes - 1) == 0) { requests_sent++; mc_observe("second-request "); }
+		if (hc_peer_write(SC[0].fd, reqbytes, reqlen) == 0) { requests_sent++; mc_observe("second-request "); }
 		hc_run();
 		if (hplan == H_LATER || hplan == H_CHUNKED_LATER_END) { s_flush_pending(); hc_run(); }
 	}
@@ -570,7 +587,7 @@ static void run_server(void)
 		total_responses += k;
 		if (s->out.n >= 12 && !memcmp(s->out.p + 9, "503", 3)) r503++;
 		MC_COUNT("oracle_responses_per_request");
-		int asked = s->sent_request + (c == 0 && second ? 1 : 0);
+		int asked = (s->sent_request || s->hdr_sent) + (c == 0 && second ? 1 : 0);
 		if (k > asked && !(k == 1 && asked == 0 && s->out.n >= 12 && (!memcmp(s->out.p + 9, "503", 3) || !memcmp(s->out.p + 9, "400", 3))))
 			mc_fail("C27/server/more-responses-than-requests", "connection %d sent %d complete requests and received %d responses", c, asked, k);
 		if (garbage) mc_fail("C27/server/garbage-after-response", "connection %d: bytes after a complete response do not form a response", c);
